@@ -93,6 +93,17 @@ def trace_oracle(term, out):
                         term.replay(), len(term.seq))
     except RecursionError:
         pass
+    # an interpreter configured by the caller (as the CLI does for stacked pickles): the trace returns that interpreter's program
+    try:
+        ic = fk.Interpreter(fk.Pickled.load(term.data), first_variable_id=3, result_variable="result7")
+        tc, _pc = e1.capture_stdout(lambda: Trace(ic).run())
+        uc = fk.Interpreter(fk.Pickled.load(term.data), first_variable_id=3, result_variable="result7").to_ast()
+        if e1._canon_ast(tc, {}) != e1._canon_ast(uc, {}):
+            out.violate(PROP, "C09|trace|configured-interpreter-differs",
+                        "Trace.run on an interpreter with its own variable numbering / result name returns a different program than that "
+                        "interpreter untraced", term.replay(), len(term.seq))
+    except RecursionError:
+        pass
     # opcodes after the first STOP are dead code for the VM; traced and untraced decompilation must agree on that too
     try:
         tail = fk.Pickled.load(asm(("BININT1", 7), "STOP"))
